@@ -423,7 +423,11 @@ def validate_trace(module, cfg, events, workdir, tag, batch=4000, timeout=900, d
             with open(p1, "w") as f:
                 for ev in lines(execs[k])[:within + 2]:
                     f.write(json.dumps(ev, separators=(",", ":")) + "\n")
-            rejected.append((idxs[k], within, p1, r["violated"] or "no spec action explains the event"))
+            why = r["violated"] or "no spec action explains the event"
+            mm = re.findall(r'verdict = "(\w+)"', r["out"])
+            if mm and mm[-1] not in ("none", "ok"):
+                why += ": " + mm[-1]
+            rejected.append((idxs[k], within, p1, why))
             start = k + 1
             rounds += 1
             if rounds >= max_rejections_per_batch:
